@@ -24,6 +24,7 @@ type tr struct {
 	nMatch  int
 	pre     []string // statements to be emitted before the current one (for-loop initialisers)
 	isField map[string]bool
+	drawn   map[string]bool // loop variables ranging over ctx.Characters(…)
 }
 
 func q(s string) string { return ex.LeanStr(s) }
@@ -31,6 +32,20 @@ func q(s string) string { return ex.LeanStr(s) }
 func (t *tr) flat(n ast.Node) string { return strings.Join(strings.Fields(t.c.Src(n)), " ") }
 
 func (t *tr) unknownE(n ast.Node) string { return "(.unknown " + q(t.flat(n)) + ")" }
+
+// selPath: x.a.b -> ("x", "a.b")
+func selPath(e ast.Expr) (string, string, bool) {
+	switch x := e.(type) {
+	case *ast.SelectorExpr:
+		if id, ok := x.X.(*ast.Ident); ok {
+			return id.Name, x.Sel.Name, true
+		}
+		if b, p, ok := selPath(x.X); ok {
+			return b, p + "." + x.Sel.Name, true
+		}
+	}
+	return "", "", false
+}
 
 func (t *tr) local(name string) string {
 	if name == "_" {
@@ -58,6 +73,11 @@ func (t *tr) lhs(e ast.Expr, define bool) string {
 	case *ast.SelectorExpr:
 		if id, ok := x.X.(*ast.Ident); ok && id.Name == t.recv {
 			return t.canon + "." + x.Sel.Name
+		}
+		if base, path, ok := selPath(x); ok && base != t.recv {
+			if cn, ok := t.names[base]; ok {
+				return cn + "." + path
+			}
 		}
 	}
 	return ""
@@ -165,6 +185,16 @@ func (t *tr) expr(e ast.Expr) string {
 			return "(.or " + t.expr(x.X) + " " + t.expr(x.Y) + ")"
 		}
 	case *ast.SelectorExpr:
+		// char.Width of a drawn character
+		if id, ok := x.X.(*ast.Ident); ok && x.Sel.Name == "Width" && t.drawn[id.Name] {
+			return "(.width (.v " + q(t.names[id.Name]) + "))"
+		}
+		// a path of fields from a parameter or local (ctx.Max.Width)
+		if base, path, ok := selPath(x); ok && base != t.recv {
+			if cn, ok := t.names[base]; ok {
+				return "(.v " + q(cn+"."+path) + ")"
+			}
+		}
 		if id, ok := x.X.(*ast.Ident); ok {
 			if id.Name == t.recv {
 				return "(.v " + q(t.canon+"."+x.Sel.Name) + ")"
@@ -204,6 +234,9 @@ func (t *tr) expr(e ast.Expr) string {
 			}
 		case ty == "[]vxfw.Command" && len(x.Elts) == 2:
 			return "(.pair " + t.expr(x.Elts[0]) + " " + t.expr(x.Elts[1]) + ")"
+		case ty == "vxfw.Surface" || ty == "vaxis.Cell":
+			// values the editor's state does not depend on
+			return "(.opaque " + q(ty+"{…}") + ")"
 		}
 	case *ast.CallExpr:
 		return t.call(x)
@@ -258,6 +291,8 @@ func (t *tr) call(x *ast.CallExpr) string {
 		switch {
 		case id.Name == "vxfw" && f.Sel.Name == "ConsumeAndRedraw" && len(x.Args) == 0:
 			return ".redraw"
+		case id.Name == "vxfw" && f.Sel.Name == "NewSurface":
+			return "(.opaque \"vxfw.NewSurface(…)\")"
 		case f.Sel.Name == "Characters" && len(x.Args) == 1 && (id.Name == "vaxis" || t.names[id.Name] != ""):
 			return "(.chars " + t.expr(x.Args[0]) + ")"
 		case id.Name == "slices" && f.Sel.Name == "Insert" && len(x.Args) == 3:
@@ -332,6 +367,28 @@ func (t *tr) stmt(s ast.Stmt) []string {
 		if len(x.Lhs) != 1 || len(x.Rhs) != 1 {
 			return t.unknownS(s)
 		}
+		// x.f = &T{a: u, b: v}: the fields one by one
+		if ue, ok := x.Rhs[0].(*ast.UnaryExpr); ok && ue.Op == token.AND && !def {
+			if cl, ok := ue.X.(*ast.CompositeLit); ok {
+				name := t.lhs(x.Lhs[0], false)
+				if name == "" {
+					return t.unknownS(s)
+				}
+				var out []string
+				for _, e := range cl.Elts {
+					kv, ok := e.(*ast.KeyValueExpr)
+					if !ok {
+						return t.unknownS(s)
+					}
+					v := t.expr(kv.Value)
+					if strings.HasPrefix(v, "(.strLit ") {
+						v = "(.opaque " + q(t.flat(kv.Value)) + ")"
+					}
+					out = append(out, "S.assign "+q(name+"."+t.flat(kv.Key))+" "+v)
+				}
+				return out
+			}
+		}
 		rhs := t.expr(x.Rhs[0]) // before the definition: `i := i + 1` reads the old i
 		name := t.lhs(x.Lhs[0], def)
 		if name == "" {
@@ -391,6 +448,9 @@ func (t *tr) stmt(s ast.Stmt) []string {
 		}
 		if se, ok := ce.Fun.(*ast.SelectorExpr); ok {
 			if id, ok := se.X.(*ast.Ident); ok {
+				if se.Sel.Name == "WriteCell" && t.names[id.Name] != "" {
+					return []string{"S.effect " + q("WriteCell")}
+				}
 				if se.Sel.Name == "WriteString" && len(ce.Args) == 1 {
 					if cn, ok := t.names[id.Name]; ok {
 						return []string{"S.write " + q(cn) + " " + t.expr(ce.Args[0])}
@@ -445,6 +505,18 @@ func (t *tr) stmt(s ast.Stmt) []string {
 	case *ast.RangeStmt:
 		if x.Key != nil && t.flat(x.Key) != "_" || x.Value == nil || x.Tok != token.DEFINE {
 			return t.unknownS(s)
+		}
+		if ce, ok := x.X.(*ast.CallExpr); ok && len(ce.Args) == 1 {
+			if se, ok := ce.Fun.(*ast.SelectorExpr); ok && se.Sel.Name == "Characters" {
+				if id, ok := se.X.(*ast.Ident); ok && strings.HasPrefix(t.names[id.Name], "p") {
+					arg := t.expr(ce.Args[0])
+					v := t.lhs(x.Value, true)
+					if vid, ok := x.Value.(*ast.Ident); ok {
+						t.drawn[vid.Name] = true
+					}
+					return []string{"S.rangeDrawn " + q(v) + " " + arg + "\n    " + t.block(x.Body.List)}
+				}
+			}
 		}
 		e := t.expr(x.X)
 		v := t.lhs(x.Value, true)
@@ -582,7 +654,7 @@ func genLang(c *ex.Ctx) {
 			fmt.Fprintf(&sb, "  Fn.missing %s\n\n", q("func "+name+" not found in "+file))
 			return
 		}
-		t := &tr{c: c, canon: canon, names: map[string]string{}}
+		t := &tr{c: c, canon: canon, names: map[string]string{}, drawn: map[string]bool{}}
 		if fd.Recv != nil && len(fd.Recv.List) > 0 && len(fd.Recv.List[0].Names) > 0 {
 			t.recv = fd.Recv.List[0].Names[0].Name
 		}
@@ -601,7 +673,7 @@ func genLang(c *ex.Ctx) {
 	}
 	tf := c.Parse("vxfw/textfield/textfield.go")
 	for _, fn := range []string{"HandleEvent", "checkChanged", "Reset", "InsertStringAtCursor", "CursorTo", "DeleteCharRightOfCursor",
-		"DeleteCharLeftOfCursor", "DeleteCursorToEndOfLine", "insertStringAtCursor"} {
+		"DeleteCharLeftOfCursor", "DeleteCursorToEndOfLine", "insertStringAtCursor", "Draw"} {
 		nm := "tf" + strings.ToUpper(fn[:1]) + fn[1:]
 		if fn == "insertStringAtCursor" {
 			nm = "tfInsertLoop"
